@@ -5,19 +5,21 @@ ID = "C18"
 
 _CHUNK = 1024          # must equal kChunk in harness/mon_c18.cpp
 _NMUL = 40             # must equal the number of entries of kMulGrid
+_NPIP = 16 ** 3 + 16 ** 4   # 3- and 4-vertex polygons on a 4x4 lattice
+_PIPCHUNK = 64         # must equal kPipChunk
 _TSET = _q(10, 12)     # coordinate values per axis of the point-triple grid (monitor default per tier)
 
 
 def _chunks(tier):
     c = lambda n: (n + _CHUNK - 1) // _CHUNK
-    return c(22 ** 4) + c(_TSET[tier] ** 6) + c(_NMUL * _NMUL)
+    return c(22 ** 4) + c(_TSET[tier] ** 6) + c(_NMUL * _NMUL) + (_NPIP + _PIPCHUNK - 1) // _PIPCHUNK
 
 
 def _post(ctx):
     """The exhaustive scopes must have been enumerated completely in both arithmetic branches."""
     cnt = ctx["counters"]
     for cfg in ("plain", "portable"):
-        for what in ("grid_pae_tuples", "grid_point_triples", "grid_multiply_pairs", "grid_chunks"):
+        for what in ("grid_pae_tuples", "grid_point_triples", "grid_multiply_pairs", "grid_pip_polygons", "grid_chunks"):
             done, exp = cnt.get("%s_done_%s" % (what, cfg), 0), cnt.get("%s_expected_%s" % (what, cfg), -1)
             if done != exp:
                 ctx["inconclusive"].append("exhaustive grid incomplete: %s %s done=%s expected=%s" % (what, cfg, done, exp))
@@ -26,9 +28,9 @@ def _post(ctx):
     if cnt.get("grid_chunk_index_beyond_end", 0):
         ctx["notes"].append("grid job was given %d chunk indices beyond the end of the enumeration (harmless)" % cnt["grid_chunk_index_beyond_end"])
     ctx["notes"].append("exhaustive boundary grid enumerated completely in builds plain and portable: %d ProductsAreEqual 4-tuples, "
-                        "%d point triples (%d rejected by the no-overflow premise), %d Multiply pairs per build" %
+                        "%d point triples, %d Multiply pairs, %d lattice polygons x 81 query points per build" %
                         (cnt.get("grid_pae_tuples_done_plain", 0), cnt.get("grid_point_triples_done_plain", 0),
-                         cnt.get("tri_rejected_difference_overflow", 0), cnt.get("grid_multiply_pairs_done_plain", 0)))
+                         cnt.get("grid_multiply_pairs_done_plain", 0), cnt.get("grid_pip_polygons_done_plain", 0)))
 
 
 PROP = {
